@@ -237,6 +237,9 @@ func (r *i36Run) fetchUnit(ui int, b *i36Base, newSrv *i36Srv, prior i36Prior, s
 							key := "incomplete " + kbase
 							if noShallowLines {
 								key = "incomplete: go-git client, shallow repository, depth=0 (no shallow lines sent) " + pairing
+							} else if pairing == i36GG && proto != 2 && depth > 0 && len(priorShallow) > 0 {
+								// class predicate (input only): go-git v0/v1 server, deepen request from a shallow client
+								key = "incomplete: go-git v0/v1 server ignores the client's shallow lines (deepen of a shallow client)"
 							} else if pairing == i36GG && proto == 2 && depth > 0 && len(priorShallow) == 0 && len(have) > 0 {
 								// class predicate (input only): go-git v2 server, deepen request from a non-shallow client that has haves
 								key = "incomplete: go-git v2 server, deepen with client haves (boundary commit diffed against its unsent parent)"
